@@ -21,13 +21,15 @@ GATES = ["numbers_checked", "subtypes_checked", "stubs_checked", "df002_checked"
          "ismsm_false_checked", "reader_frames_checked", "collider_pairs", "frame_as_payload"]
 
 
-def check(ctx, payload, expect_id, defined, full_body):
+def check(ctx, payload, expect_id, defined, full_body, rep=None):
     from pyrtcm import RTCMMessage
 
     num = (payload[0] << 4) | (payload[1] >> 4)
-    params = {"payload": payload.hex(), "expect": expect_id, "defined": defined}
+    rep = rep or streams.pick_rep(ctx.rng, 0.7)  # the same bytes as bytes / bytearray / subclass / memoryview
+    ctx.hit("rep:" + rep)
+    params = {"payload": payload.hex(), "expect": expect_id, "defined": defined, "rep": rep}
     try:
-        m = RTCMMessage(payload=payload)
+        m = RTCMMessage(payload=streams.as_rep(rep, payload))
     except Exception as e:
         if defined and not full_body:
             ctx.hit("defined_with_arbitrary_tail_rejected(ok)")
@@ -48,7 +50,7 @@ def check(ctx, payload, expect_id, defined, full_body):
             return
         ctx.hit("df002_checked")
     else:
-        if m.payload != payload:
+        if bytes(m.payload) != payload:
             ctx.violation("stub-payload-lost", f"{expect_id}: stub keeps {len(m.payload)} of {len(payload)} payload bytes",
                           params)
             return
@@ -201,4 +203,4 @@ def replay(ctx, p):
     if "reader" in p:
         reader_case(ctx, [bytes.fromhex(x) for x in p["reader"]])
         return
-    check(ctx, bytes.fromhex(p["payload"]), p["expect"], p["defined"], True)
+    check(ctx, bytes.fromhex(p["payload"]), p["expect"], p["defined"], True, rep=p.get("rep", "bytes"))
